@@ -81,6 +81,7 @@ type simPeer struct {
 	rrSeen  int
 	kaTimes []time.Duration
 	passive bool // no keepalives / no reactions (used by fsm scripts)
+	grCapFams []string // families listed in the next GR capability (nil: as configured)
 
 	// hooks for family-specific monitors
 	onMsg func(p *simPeer, m *wMsg)
@@ -165,7 +166,11 @@ func (p *simPeer) buildOpen(restartBit bool) []byte {
 			flags |= 0x4000
 		}
 		v := u16b(flags | uint16(p.cfg.GR.RestartTime&0x0fff))
-		for _, fn := range p.cfg.GR.Families {
+		capFams := p.cfg.GR.Families
+		if p.grCapFams != nil {
+			capFams = p.grCapFams
+		}
+		for _, fn := range capFams {
 			f := famByName(fn)
 			v = append(v, byte(f.AFI>>8), byte(f.AFI), f.SAFI, 0x80)
 		}
